@@ -328,7 +328,7 @@ def obligations(tier):
     else:
         for mname in modes:
             obs.append(Ob(f'glue_total_{mname}', 'S', ob_glue_total, f'glue totality, mode {mname}', functions=G, weight=9,
-                          timeout=7000, params={'mmax': 3, 'fill': (0, 2, 4, 5), 'modes': [mname], 'cap': 6500}))
+                          timeout=7000, params={'mmax': 3, 'fill': (0, 2, 5), 'modes': [mname], 'cap': 6500}))
     S = ['PLSSDesc.__init__', 'PLSSDesc.parse', 'plss_preprocess', 'PLSSParser', 'Tract.parse', 'TractParser.parse',
          'scrub_aliquots', 'LotUnpacker', 'parse_aliquot']
     if q:
